@@ -102,8 +102,10 @@ func (formatter *typeFormatter) formatType(def ast.Type) string {
 		result = formatter.formatAnonymousEnum(def)
 	}
 
+	// intersections are not supported in python: the loosest type is used
+	// instead of crashing the generator.
 	if def.IsIntersection() {
-		panic("formatting intersection type is not implemented for python")
+		result = "object"
 	}
 
 	if def.IsDisjunction() {
